@@ -466,6 +466,8 @@ def run(model, rep, tier):
 
 
 WITNESSES = [
+    {"id": "c18-twin-tls-options-by-keyword", "rule": "R-18.12", "file": "dns/query.py", "expect": "silent",
+     "old": "            source_port,\n            one_rr_per_rrset,\n            ignore_trailing,\n            sock,\n        )", "new": "            source_port,\n            ignore_trailing=ignore_trailing,\n            one_rr_per_rrset=one_rr_per_rrset,\n            sock=sock,\n        )", "count": 1},
     {"id": "c18-async-tls-restarts-the-budget", "rule": "R-18.13", "file": "dns/asyncquery.py", "expect": "fires",
      "old": "    async with cm as s:\n        timeout = _timeout(expiration)\n        response = await tcp(", "new": "    async with cm as s:\n        response = await tcp("},
     {"id": "c18-twin-async-tls-remaining-local", "rule": "R-18.13", "file": "dns/asyncquery.py", "expect": "silent",
